@@ -147,6 +147,11 @@ class UnitDefinition(PintParsedStatement, definitions.UnitDefinition):
 
         name, value, *aliases = (p.strip() for p in s.split("="))
 
+        if not value:
+            return common.DefinitionSyntaxError(
+                f"Unit definition ('{name}') has no relation to another unit or dimension"
+            )
+
         defined_symbol = None
         if aliases:
             if aliases[0] == "_":
